@@ -230,6 +230,30 @@ Proof.
   - intros k. rewrite db_load_get by exact W. destruct (sm_get str_cmp m k); reflexivity.
 Qed.
 
+(** THEOREM (install into live state): a node whose counters lag (any [follower] state) is caught up
+    by the leader's snapshot while it runs: every counter the leader has is taken over exactly, the
+    others keep the follower's value; hence whatever the node draws from [k] afterwards lies at or
+    above everything the leader had handed out before the snapshot *)
+Theorem db_install_next_free leader follower k : sm_wf str_cmp leader ->
+  next_free (db_install follower (db_snapshot leader)) k =
+  match sm_get str_cmp leader k with Some v => v | None => next_free follower k end.
+Proof.
+  intros W. unfold next_free, db_install, db_snapshot. rewrite db_load_get by exact W.
+  destruct (sm_get str_cmp leader k); reflexivity.
+Qed.
+
+Theorem db_install_continues k leader follower more :
+  sm_wf str_cmp leader -> sm_wf str_cmp follower -> sm_get str_cmp leader k <> None ->
+  (forall r, In r more -> resets k r = false) ->
+  forall s len, In (s, len) (draws_of k (db_install follower (db_snapshot leader)) more) -> next_free leader k <= s.
+Proof.
+  intros WL WF HK NR s len HIn.
+  assert (WI : sm_wf str_cmp (db_install follower (db_snapshot leader))) by (apply db_load_wf; exact WF).
+  destruct (db_draws_bounds k _ more WI NR s len HIn) as [Hlo _].
+  rewrite db_install_next_free in Hlo by exact WL.
+  unfold next_free. destruct (sm_get str_cmp leader k) as [v|]; [exact Hlo | congruence].
+Qed.
+
 (** THEOREM (restart): live history L1 ++ L2 ++ L3; the snapshot holds the counters after
     L1 ++ L2 but the log is replayed from the end of L1 (L2 is applied a SECOND time).  For a
     key that is not reset in L2 ++ L3 the restarted counter is at or above the live one: every id
